@@ -32,6 +32,9 @@ type MainCfg struct {
 	TweakCfg func(r *vlib.RNG, c *Cfg)
 	// Extra is called after each run (under no lock) for property-specific checks; it may return a failure text.
 	Extra func(p *Program, rr RunResult, rn *Runner) string
+	// ClassCmp: every fifth job (ClassJob) runs under the non-injective comparer (vlib.CaseFold, id 4) with a
+	// key pool holding several spellings per user key and the bloom filter off.
+	ClassCmp bool
 	// Directed may supply a specially shaped program for job i (nil = use the random generator).
 	Directed func(r *vlib.RNG, i int) *Program
 	// ReplayOther (optional) is tried first on a replay file: it returns true when the file holds one of the property's own
@@ -107,12 +110,25 @@ func Main(mc MainCfg) {
 					mc.TweakCfg(r, &cfg)
 				}
 				pool := GenPool(r, r.Range(8, 60), r.Chance(1, 8))
+				classJob := mc.ClassCmp && ClassJob(j.i)
+				if classJob {
+					// non-injective comparer (cmpx.go): several spellings per user key, oracle keyed by class
+					UseClassCmp(&cfg)
+					pool = SpellPool(r, pool)
+				}
 				p := GenProgram(r, cfg, pool, r.Range(nops/3, nops), mc.Weights)
 				if mc.Directed != nil {
 					if dp := mc.Directed(r, j.i); dp != nil {
 						p, cfg = dp, dp.Cfg
+						classJob = false
 						res.Count("directed_programs", 1)
 					}
+				}
+				if classJob {
+					res.Count("programs_casefold_comparer", 1)
+					cl, multi := ClassStats(cfg.Options().Comparer, p.Pool)
+					res.Count("casefold_classes", cl)
+					res.Count("casefold_classes_with_several_spellings", multi)
 				}
 				p.Seed = a.Seed
 				collect := len(mc.KPrefixes) > 0 && j.i%2 == 0
